@@ -22,6 +22,8 @@ func main() {
 	}
 	var res interface{}
 	switch *mode {
+	case "api":
+		res = runAPI(raw)
 	default:
 		_ = raw
 		fmt.Fprintf(os.Stderr, "unknown mode %q\n", *mode)
